@@ -114,3 +114,17 @@ Proof.
     assert (Hr : nth_error res k = Some (eval (seed_gradient x) pk)) by (unfold res; rewrite nth_error_map, Hk; reflexivity).
     rewrite (EJ k _ Hr i). rewrite Forall_forall in Hok. apply (seeded_program_parts pk x (Hok pk (nth_error_In _ _ Hk)) i xi Hi).
 Qed.
+
+(* second_partial_derivative on a program of two variables: (f, f_x, f_y, f_xy) *)
+From ND Require Import C03_mixed.
+Theorem second_partial_derivative_of_program p x y : okR (x :: y :: nil) p ->
+  let f := fun s t => eval (T:=R) (s :: t :: nil) p in
+  exists fx fy fxy (ft : R -> R), second_partial_derivative (fun a b => eval (a :: b :: nil) p) x y = (f x y, fx, fy, fxy) /\
+    is_derive (fun s => f s y) x fx /\ locally x (fun s => is_derive (f s) y (ft s)) /\ fy = ft x /\ is_derive ft x fxy.
+Proof.
+  intros Hok f. destruct (second_partial_program p x y Hok) as [A [ft [L [D1 [E2 D12]]]]].
+  set (h := eval (mkHyperDual x 1 0 0 :: mkHyperDual y 0 1 0 :: nil) p) in *.
+  exists (HyperDual_f_eps1 h), (HyperDual_f_eps2 h), (HyperDual_f_eps1eps2 h), ft. split; [|split; [exact D1|split; [exact L|split; [exact E2|exact D12]]]].
+  unfold second_partial_derivative, try_second_partial_derivative. destruct (scalar_seeds x) as [_ [_ [_ [S1 _]]]]. destruct (scalar_seeds y) as [_ [_ [_ [_ S2]]]].
+  rewrite S1, S2. simpl. fold h. rewrite A. reflexivity.
+Qed.
